@@ -1,6 +1,48 @@
 /* C09 harness: LZ4 size bound and compressor safety (contracts in contracts/lz4.ovl) */
 #include "cqv.h"
 #include <stdlib.h>
+#include <string.h>
+#include "lz4_spec.h"
+
+/* memcpy/memset models for these jobs (stubs/mem_stubs.c is NOT linked): ranges must be accessible;
+ * afterwards the WHOLE destination object holds arbitrary bytes (over-approximation of the copy; a
+ * symbolic-length __CPROVER_havoc_slice needs > 17 GB in carquet_lz4_compress).  With
+ * CQV_MEMCPY_EXACT=k, copies of at most k bytes keep their contents byte by byte (lz4_count job:
+ * the 8-byte words it compares are the real buffer bytes). */
+void *memcpy(void *dst, const void *src, size_t n) {
+  __CPROVER_precondition(__CPROVER_r_ok(src, n), "memcpy src readable");
+  __CPROVER_precondition(__CPROVER_w_ok(dst, n), "memcpy dst writable");
+  if (n != 0) {
+#ifdef CQV_MEMCPY_EXACT
+    if (n <= CQV_MEMCPY_EXACT) {
+      for (size_t i = 0; i < CQV_MEMCPY_EXACT; i++) {
+        if (i < n) ((uint8_t *)dst)[i] = ((const uint8_t *)src)[i];
+      }
+      return dst;
+    }
+#endif
+    __CPROVER_havoc_object(dst);
+  }
+  return dst;
+}
+void *memset(void *dst, int c, size_t n) {
+  __CPROVER_precondition(__CPROVER_w_ok(dst, n), "memset dst writable");
+  if (n != 0) __CPROVER_havoc_object(dst);
+  return dst;
+}
+
+/* C10 (compressor side, structural): every sequence with a match obeys the format's field ranges and
+ * end-of-block rules; the final literal run is long enough.  Checked in the real function at the hooks
+ * placed by contracts/lz4.ovl (CQV_LZ4_SEQ_END just before `ip += match_len`, CQV_LZ4_LAST_BEGIN before
+ * the last literals are written). */
+#define CQV_LZ4_SEQ_END \
+  __CPROVER_assert(offset >= 1 && offset <= 65535 && offset <= (size_t)(ip - src), "lz4c: offset in 1..65535 and inside the data already covered"); \
+  __CPROVER_assert(match_len >= LZ4_SPEC_MINMATCH, "lz4c: match length >= minmatch"); \
+  __CPROVER_assert(lz4_spec_match_allowed(src_size, (size_t)(ip - src), match_len), "lz4c: match starts >= 12 bytes before the end and leaves >= 5 literal bytes"); \
+  __CPROVER_assert(lit_len == (size_t)(ip - anchor) && (size_t)(anchor - src) + lit_len + match_len <= src_size, "lz4c: sequence covers anchor..ip+match_len inside the input");
+#define CQV_LZ4_LAST_BEGIN \
+  __CPROVER_assert(src_size >= 13 && (size_t)(iend - anchor) >= LZ4_SPEC_LASTLITERALS, "lz4c: block ends with >= 5 literal bytes");
+
 #include "src/compression/lz4.c"
 
 /* bound arithmetic: no wrap for sizes up to 2^40, never below the input size, and equal to
